@@ -40,8 +40,10 @@ class Fifo:
         os.unlink(self.path)
 
 
-def run_jobserver_case(root, g, tokens, j, k, faults, sleepy, console=()):
-    """returns (finding or None, labels). console: picks of command statements that are put into the console pool"""
+def run_jobserver_case(root, g, tokens, j, k, faults, sleepy, console=(), symloop=None):
+    """returns (finding or None, labels). console: picks of command statements that are put into the console pool.
+    symloop: pick of a restat/generator statement whose command leaves its output as a link to itself (ninja's stat of
+    the output fails: an error path of FinishCommand that is not a command failure)"""
     if console:
         import copy
         g = copy.deepcopy(g)
@@ -61,6 +63,10 @@ def run_jobserver_case(root, g, tokens, j, k, faults, sleepy, console=()):
         for e in cmds:
             for o in all_outs(e):
                 sim.delete(o)
+        if symloop is not None:
+            # the error path only differs from a command failure for a command that holds a token of its own: some
+            # other command has to be running when it ends
+            tokens, sleepy = max(tokens, 1), True
         fifo = Fifo(os.path.join(root, "jobserver.fifo"), tokens)
         sim.omit_j = True
         sim.extra_env = {"MAKEFLAGS": " -j%d --jobserver-auth=fifo:%s" % (tokens + 1, fifo.path),
@@ -70,6 +76,13 @@ def run_jobserver_case(root, g, tokens, j, k, faults, sleepy, console=()):
         fl = {}
         for (a, code) in faults:
             fl[key(cmds[a % len(cmds)])] = dict(fail=code, fail_touch=False)
+        stat_error = None
+        if symloop is not None:
+            cand = [e for e in cmds if (models.is_restat(e) or e.get('generator')) and key(e) not in fl]
+            if cand:
+                stat_error = key(cand[symloop % len(cand)])
+                sim.extra_env["VERIF_SYMLOOP"] = "%s:1" % stat_error
+                labels.add('jobserver_stat_error_after_command')
         targets = [key(e) for e in sim.g['edges']]
         req = sim.request(targets, j=j, k=k, faults=fl or None)
         sim.time_limit = 45
@@ -93,7 +106,7 @@ def run_jobserver_case(root, g, tokens, j, k, faults, sleepy, console=()):
             labels.add('jobserver_exit130')
         if fl and any(e.get('pool') == 'console' for e in cmds):
             labels.add('jobserver_failure_with_console_command')
-        detail = dict(tokens=tokens, j=j, k=k, faults=faults, manifest=graphs.manifest(sim.g)[-400:], output=res['err'][-400:])
+        detail = dict(tokens=tokens, j=j, k=k, faults=faults, stat_error=stat_error, manifest=graphs.manifest(sim.g)[-400:], output=res['err'][-400:])
         if left != tokens:
             return dict(kind="jobserver tokens not all returned: %d in the fifo before, %d after ninja exited (status %d)" % (tokens, left, res['status']), detail=detail), labels
         for ev in starts:
@@ -106,7 +119,7 @@ def run_jobserver_case(root, g, tokens, j, k, faults, sleepy, console=()):
             seen.add(ev['edge'])
         if "stuck" in res['err']:
             return dict(kind="ninja reported 'stuck'", detail=detail), labels
-        if not fl and res['status'] != 0:
+        if not fl and not stat_error and res['status'] != 0:
             return dict(kind="build under a jobserver failed without an injected fault (status %d)" % res['status'], detail=detail), labels
         return None, labels
     finally:
@@ -242,13 +255,14 @@ def jobserver_worker(widx, n_examples):
                   phases=[Phase.generate, Phase.shrink], verbosity=Verbosity.quiet, report_multiple_bugs=False)
         @given(graphs.graphs(max_edges=6, features=dict(unordered_hidden=False)), st.integers(0, 3), st.sampled_from([1, 2, 3, 8]), st.sampled_from([1, 2, 0]),
                st.lists(st.tuples(st.integers(0, 20), st.sampled_from([1, 2, 130, 130, 255])), max_size=2), st.booleans(),
-               st.one_of(st.just([]), st.just([]), st.lists(st.integers(0, 20), min_size=1, max_size=2)))
-        def test(g, tokens, j, k, faults, sleepy, console):
-            case = dict(g=g, tokens=tokens, j=j, k=k, faults=[list(f) for f in faults], sleepy=sleepy, console=console)
+               st.one_of(st.just([]), st.just([]), st.lists(st.integers(0, 20), min_size=1, max_size=2)),
+               st.one_of(st.none(), st.none(), st.integers(0, 20)))
+        def test(g, tokens, j, k, faults, sleepy, console, symloop):
+            case = dict(g=g, tokens=tokens, j=j, k=k, faults=[list(f) for f in faults], sleepy=sleepy, console=console, symloop=symloop)
             dg = common.digest(case)
             if budget.skip(dg):
                 return
-            f, labels = run_jobserver_case(root, g, tokens, j, k, faults, sleepy, console)
+            f, labels = run_jobserver_case(root, g, tokens, j, k, faults, sleepy, console, symloop)
             res.case(case, 'jobserver_build' in labels and (tokens > 0 or bool(faults)), ['js:' + l for l in labels],
                      sample=dict(tokens=tokens, j=j, k=k, faults=case['faults']) if 'jobserver_failure' in labels else None)
             if f:
@@ -265,7 +279,7 @@ def replay_js(case):
     root = common.scratch_root()
     try:
         f, _ = run_jobserver_case(root, case['g'], case['tokens'], case['j'], case['k'], [tuple(x) for x in case['faults']], case['sleepy'],
-                                  case.get('console', ()))
+                                  case.get('console', ()), case.get('symloop'))
     finally:
         shutil.rmtree(root, ignore_errors=True)
     return f['kind'] if f else None
